@@ -501,7 +501,7 @@ def add_custom_columns(rng: random.Random, form: dict, hostile: bool = False) ->
 # ---- exotics: rarely used but accepted features, added on top of a generated form -----------------------------------
 LEGACY_HINT_TYPES = ["phone number", "number of days in last month", "number of days in last six months", "number of days in last year"]
 EXOTIC_KINDS = ["osm", "search", "legacy_hint", "choice_parent", "empty_group", "bad_choice_col", "audit", "count_expr", "calc_msgs",
-                "file_selects", "indexed_repeat"]
+                "file_selects", "entity_variants", "hint_only_computed", "seeded_select"]
 
 
 def form_langs(form: dict) -> tuple[list[str], str]:
@@ -656,6 +656,47 @@ def add_exotics(rng: random.Random, form: dict, kinds, p=0.5) -> list[str]:
                 row["required"] = "yes"
                 _translated(rng, row, "required_message", langs, delim, ["needed", "must"], p_plain=0.3)
             survey.append(row)
+        elif kind == "entity_variants":
+            # every accepted row of the create/update decision table (C19), with a save_to on a top-level question
+            if "entities" in form:
+                continue
+            top, depth = [], 0
+            for r in survey:
+                t = r.get("type", "")
+                if t.startswith("begin"):
+                    depth += 1
+                elif t.startswith("end"):
+                    depth -= 1
+                elif depth == 0 and r.get("name") and t.split(" ")[0] in ("text", "integer", "string", "int", "decimal"):
+                    top.append(r)
+            ref = "${%s}" % top[0]["name"] if top else "'x'"
+            combo = rng.choice([{"label": "concat('n', %s)" % ref}, {"create_if": "%s != ''" % ref, "label": "'L'"}, {"entity_id": ref}, {"entity_id": ref, "label": "'L'"},
+                                {"entity_id": ref, "update_if": "%s != ''" % ref}, {"entity_id": ref, "update_if": "true()", "label": "'L'"},
+                                {"entity_id": ref, "create_if": "%s = ''" % ref, "update_if": "%s != ''" % ref, "label": "'L'"}])
+            form["entities"] = [{"dataset": rng.choice(["trees", "people_1"]), **combo}]
+            if top and rng.random() < 0.6:
+                rng.choice(top)["save_to"] = rng.choice(["prop_a", "height"])
+            if rng.random() < 0.3:
+                form.setdefault("settings", [{}])[0]["omit_instanceID"] = "yes"      # then the entity is all there is in the meta block
+        elif kind == "hint_only_computed":
+            # a non-calculate row with a calculation, a hint and no label is still presented to the user
+            row = {"type": rng.choice(["integer", "text", "decimal"]), "name": _fresh(form, "hc"), "calculation": rng.choice(["1 + 1", "'x'"])}
+            _translated(rng, row, "hint", langs, delim, ["computed for you", "shown only"])
+            if rng.random() < 0.3:
+                row["label"] = "L"
+            survey.append(row)
+        elif kind == "seeded_select":
+            # randomize with a seed taken from a question: inside the seed question's repeat the path must be relative
+            lst = _fresh(form, "rl")
+            form.setdefault("choices", []).extend({"list_name": lst, "name": n, "label": n.upper()} for n in ("a", "b", "c"))
+            inner = [{"type": "integer", "name": _fresh(form, "seedq"), "label": "Seed"}]
+            sel = {"type": f"select_one {lst}", "name": _fresh(form, "rs"), "label": "Pick", "parameters": "randomize=true, seed=${%s}" % inner[0]["name"]}
+            if rng.random() < 0.7:
+                nm = _fresh(form, "rr")
+                body = [inner[0], *([{"type": "begin group", "name": _fresh(form, "rg"), "label": "G"}, sel, {"type": "end group"}] if rng.random() < 0.4 else [sel])]
+                survey += [{"type": "begin repeat", "name": nm, "label": "R"}, *body, {"type": "end repeat"}]
+            else:
+                survey += [inner[0], sel]
         elif kind == "file_selects":
             stem = rng.choice(["cities", "places"])
             exts = rng.sample([".csv", ".xml", ".geojson"], rng.choice([1, 2]))
